@@ -352,7 +352,7 @@ pub fn run(run: &Run) -> i32 {
             }
         }
         // long sequences (lengths around 64, 4096, 65536 symbols / bits): fixed pseudo-random bit patterns
-        for len in if run.thorough() { vec![63usize, 66, 192, 195, 4095, 4098, 12288, 12291, 65538, 196611] } else { vec![33usize, 66, 129, 195, 258, 513, 1026, 2049, 4097, 4098, 8193, 12291, 16386, 32769, 49155, 65538] } {
+        for len in if run.thorough() { vec![33usize, 63, 66, 129, 192, 195, 258, 513, 1026, 2049, 4095, 4097, 4098, 8193, 12288, 12291, 16386, 32769, 49155, 65538, 131073, 196611] } else { vec![33usize, 66, 129, 195, 258, 513, 1026, 2049, 4097, 4098, 8193, 12291, 16386, 32769, 49155, 65538] } {
             for w in [1u32, 2] {
                 for s in [0.05, 1.0] {
                     items.push(json!({"kind": "seq", "len": len, "word": w, "sigma": s}));
